@@ -505,9 +505,19 @@ static void parse_cleanup(BraceState &braceState, ParsingFrame &frm, Chunk *pc)
          pc->SetParentType(frm.top().GetParent());
          frm.SetParenLevel(frm.GetParenLevel() - 1);
 
-         if (  pc->Is(CT_BRACE_CLOSE)
-            || pc->Is(CT_VBRACE_CLOSE)
-            || pc->Is(CT_MACRO_CLOSE))
+         // Issue #1813: the brace of a namespace nested in a namespace did not
+         // raise the brace level (see below), so its close must not lower it
+         bool single = (  pc->Is(CT_BRACE_CLOSE)
+                       && frm.size() > 1
+                       && frm.top().GetOpenChunk()->GetParentType() == CT_NAMESPACE
+                       && frm.prev().GetOpenChunk()->GetParentType() == CT_NAMESPACE
+                       && options::indent_namespace()
+                       && options::indent_namespace_single_indent());
+
+         if (  !single
+            && (  pc->Is(CT_BRACE_CLOSE)
+               || pc->Is(CT_VBRACE_CLOSE)
+               || pc->Is(CT_MACRO_CLOSE)))
          {
             frm.SetBraceLevel(frm.GetBraceLevel() - 1);
             LOG_FMT(LBCSPOP, "%s(%d): frame brace level decreased to %zu",
